@@ -18,6 +18,9 @@ CHECKS = {
  "C04": dict(cat="model_checking", engine="simcluster", technique="explicit-state DFS of the real controller with purge/transmit/fetch monitors",
              text="Monitors on every purge/transmit/fetch of every explored schedule: consumers done, requested value delivered, no unanswered transfer/fetch from the purged host, source holds the dataset, nothing needed after its purge.",
              note="'unanswered' = reply event not yet delivered to the controller; reference cluster model as in C01.", ref="DESIGN.md 3 C04"),
+ "C05": dict(cat="fault_enumeration", engine="vcluster", technique="exhaustive fault enumeration (every task body point x {raise, sys.exit, kill}; every helper process x every scheduler step) on the whole runtime executed in one process under a virtual scheduler and clock",
+             text="The real controller, Bridge, Executor, worker entrypoint, DataServer and shm server run as virtual processes over fake zmq/UDP/time/multiprocessing; for each job x cluster shape one fault per execution is injected at every enumerated point; the run must end (return correct values or raise) within 1000 virtual seconds, executors must exit and no helper process or shared-memory segment may remain.",
+             note="Default schedule only in quick; kills are modelled by unwinding the virtual process with its seam calls disabled; OS-level signal/zombie semantics outside the model; kills start once run() began.", ref="DESIGN.md 2.3, 3 C05"),
  "C06": dict(cat="model_checking", engine="bfs", technique="explicit-state BFS to closure over send/deliver/drop/duplicate/retry-timer histories of two real ReliableSender+Listener endpoints and of the stepped real Bridge/Executor receive loops; exhaustive frame-sequence enumeration for framing",
              text="All reachable states within a fault budget (drops/duplications) and an early-timer budget are enumerated on the real sender/listener code with max retries lowered to 3; in every state a fair closure (no more faults) must end with each message handed up exactly once or the sender raising, and a black-hole closure must end with the sender raising; the same for the real Bridge.recv_events/Executor.recv_loop stepped one pass at a time; all 781 frame sequences of length <=4 are fed to Listener._recv_one.",
              note="max_retries_per_message lowered by the harness; zmq reconnect/HWM not modelled; faults apply to frames between controller and executor only.", ref="DESIGN.md 3 C06"),
@@ -92,6 +95,8 @@ def main():
         "engines": [
             {"name": "simcluster", "path": "vf/simcluster.py", "serves_properties": ["C01", "C02", "C03", "C04"],
              "kind_free_text": "stateless DFS with prefix replay + state-hash pruning over the real controller.run against a reference cluster behind the Bridge interface"},
+            {"name": "vcluster", "path": "vf/vcluster.py", "serves_properties": ["C05"],
+             "kind_free_text": "whole distributed runtime as baton-passing virtual processes in one process (fake zmq/UDP/time/multiprocessing/SharedMemory), deterministic scheduler with fault injection"},
             {"name": "bfs", "path": "vf/checks", "serves_properties": ["C06", "C07", "C08", "C09", "C18"],
              "kind_free_text": "explicit-state BFS over operation histories (fresh real objects rebuilt per history, canonical state hashing)"},
             {"name": "enumeration", "path": "vf/checks", "serves_properties": ["C10", "C11", "C12", "C13", "C14", "C15", "C16", "C17", "C19"],
